@@ -136,6 +136,7 @@ ROWS = [
     ('1 + 2j', 'expr', _HE), ('"s"', 'expr', _HE), ('None', 'expr', _HE), ('()', 'expr', _HE), ('[]', 'expr', _HE), ('(a,)', 'expr', _HE), ('[a, [b, (c, d)]]', 'expr', _HE),
     ('(a,  # c1\n b,\n)', 'expr', _HE), ('[ "é" , b ]', 'expr', _HE), ('a[b]', 'expr', _HE), ('(yield)', 'expr', _HE), ('a if b else c', 'expr', _HE),
     ('lambda: a', 'expr', _HE), ('(a := b)', 'expr', _HE), ('a, *b', 'expr', _HE), ('[a, *b]', 'expr', _HE),
+    ('d, a if b else c', 'expr', _HE), ('[d, lambda: x]', 'expr', _HE), ('(d, e := f)', 'expr', _HE), ('[a if b else c]', 'expr', _HE), ('f(a if b else c, *d)', 'expr', _HE),
     ('*a', 'expr_arglike', None), ('a:b', 'expr_slice', None), ('*a', 'expr_all', None), ('*a,', 'expr_all', None), ('*a\n ,', 'expr_all', None), ('*ab  # c\n  ,', 'expr_all', None), ('a:b, *c', 'expr_all', None),
     ('*not a', 'expr_all', None), ('a:b:c', 'expr_all', None), ('*a\n ,', 'all', None), ('a = 1', 'all', None), ('a, b', 'all', None), ('a = b', 'stmt', None), ('a', 'stmt', None), ('a, b', 'stmt', None), ('a\nb', 'exec', None), ('a', 'exec', None),
     ('a = b =', '_Assign_targets', None), ('a, b = c.d =', '_Assign_targets', None), ('@a\n@b.c', '_decorator_list', None), ('@a(b)', '_decorator_list', None),
@@ -442,7 +443,7 @@ FNC = ['fst.fst.FST.as_', 'fst.code.code_as', 'fst.code._coerce_to_expr_ast', 'f
        'fst.code._coerce_to__decorator_list', 'fst.code._coerce_to__comprehension_ifs', 'fst.code._coerce_to__aliases_common', 'fst.code._coerce_to_pattern_ast', 'fst.code._coerce_to_arg',
        'fst.code._coerce_to_keyword', 'fst.code._coerce_to_alias', 'fst.fst_misc._fix_undelimited_seq', 'fst.fst_misc._delimit_node', 'fst.fst_core._put_src']
 CELLS = []
-_QROWS = {'*a, b', 'a, *b, c, d=e, **f', '*b, c=1, d', 'a, *b, c, d=1', 'a', '(a, b)', 'a, b', '[a, b]', 'f(a, b=c)', '(a,  # c1\n b,\n)', '[ "é" , b ]', 'a, *b, c=d', '@a\n@b.c', 'a = b =', 'a, b as c', 'a as b, c', '[a, *b]', 'C(a, k=b)', 'a, b=c', 'T, *U', 'if a if b',
+_QROWS = {'d, a if b else c', '[d, lambda: x]', '(d, e := f)','*a, b', 'a, *b, c, d=e, **f', '*b, c=1, d', 'a, *b, c, d=1', 'a', '(a, b)', 'a, b', '[a, b]', 'f(a, b=c)', '(a,  # c1\n b,\n)', '[ "é" , b ]', 'a, *b, c=d', '@a\n@b.c', 'a = b =', 'a, b as c', 'a as b, c', '[a, *b]', 'C(a, k=b)', 'a, b=c', 'T, *U', 'if a if b',
           '{"k": a, **b}', 'a | b', '-1'}
 for _i, (_f, _m, _h) in enumerate(ROWS):
     CELLS.append(Cell(f'P1.coerce[{_f!r}:{_m}]', _mk_row(_i), 'P', FNC,
